@@ -206,6 +206,9 @@ def do_check(pid, tier, seed):
     print(f"  sig={v['sig']} expected={v['expected']!r} observed={v['observed']!r} {v['msg']}")
   if len(new) > 25:
     print(f"  ... and {len(new)-25} further distinct violation signatures")
+    import collections
+    cls = collections.Counter(":".join(v["sig"].split(":")[:3]) for v in new)
+    for k, n in cls.most_common(30): print(f"  class {k}: {n} signatures")
   if nviol:
     status = max(status, 1)
 
